@@ -160,7 +160,9 @@ class Gen:
         self.recent = (ni, sym)
         op = {"k": "define_unit", "node": ni, "h": r.randrange(2), "sym": sym, "v": r.choice(VALUES[:5]),
               "s": self.spell(usym), "prefixable": r.random() < 0.5,
-              "form": r.choice(["tuple", "quantity"])}
+              "form": r.choice(["tuple", "quantity", "quantity_default"])}
+        if op["form"] == "quantity_default":
+            op["s"] = self.spell(r.choice(["m", "s", "g", "K", "Msun", "km"]), r.choice(["atomic", "compound", "prefixed"]))
         if r.random() < 0.3:
             op["explicit_registry"] = True
         return op
